@@ -824,13 +824,23 @@ fn cmd_run(cfg: &Cfg) -> i32 {
     let mut fs_feedback: BTreeSet<String> = BTreeSet::new();
     let mut divergences: Vec<(usize, u64, Divergence, bool, World)> = Vec::new();
     let mut harness_errors: Vec<String> = Vec::new();
-    let batch = 64usize;
+    let batch = 256usize;
     let mut done = 0usize;
     let mut capped = false;
     // the ultra-marathon world(s) (65536+ expansions in one process) run beside the batches
     let n_ultra = if std::env::var("SIM_NO_ULTRA").is_ok() { 0 } else if cfg.tier == "thorough" { 4 } else { 1 };
     let ultra_out: Mutex<Vec<WorldOutcome>> = Mutex::new(Vec::new());
+    // the end-to-end tier (real cargo + rustc) also runs beside the batches
+    let rustc_tier_out: Mutex<Option<Result<rustc_tier::TierResult, String>>> = Mutex::new(None);
     std::thread::scope(|scope| {
+    if cfg.rustc_tier {
+        let (corpus, rustc_tier_out) = (&corpus, &rustc_tier_out);
+        scope.spawn(move || {
+            plan::SLOT.with(|x| x.set(950));
+            let r = rustc_tier::run(cfg, corpus);
+            *rustc_tier_out.lock().unwrap() = Some(r);
+        });
+    }
     for u in 0..n_ultra {
         let (env, corpus, ultra_out) = (&env, &corpus, &ultra_out);
         let mut po = plan_opts(cfg, env, &[], &[]);
@@ -993,7 +1003,7 @@ fn cmd_run(cfg: &Cfg) -> i32 {
     // tier R: real cargo + rustc + o2o-macros dylib under the shim
     let mut rustc_tier_json = json!({"ran": false});
     if cfg.rustc_tier {
-        match rustc_tier::run(cfg, &corpus) {
+        match rustc_tier_out.into_inner().unwrap().unwrap_or_else(|| Err("the end-to-end tier did not run".to_string())) {
             Ok(r) => {
                 if let Some(v) = &r.violation {
                     println!("violation (rustc tier): {}", v.0);
